@@ -541,6 +541,10 @@ func replay(rep *kit.Report, bi int, b kit.Behaviour) {
 	}
 	cfg := kit.Map(b.Steps[0].Ev, "cfg")
 	level := kit.Str(cfg, "level")
+	if level == "follower" {
+		replayFollower(rep, bi, b)
+		return
+	}
 	s, err := newSUT(cfg)
 	if err != nil {
 		rep.Infra("behaviour %d: cannot construct the object: %v", bi, err)
@@ -874,6 +878,12 @@ func driveReactor(rep *kit.Report, rec *kit.Recorder, rng *rand.Rand, steps int)
 	}
 }
 
+// unknownViolations counts the violations that do not carry one of the known-finding signatures
+// of the follower level (those are reported once per run and must not stop the exploration).
+func unknownViolations(rep *kit.Report) int {
+	return rep.Violations() - len(reportedSig)
+}
+
 func TestVerifChannelMachine(t *testing.T) {
 	env, ok := kit.LoadEnv()
 	if !ok {
@@ -907,6 +917,15 @@ func TestVerifChannelMachine(t *testing.T) {
 	}
 	for tr := 0; tr < env.Pick(25, 250) && rep.Violations() == 0; tr++ {
 		driveReactor(rep, rec, rng, 20+rng.Intn(25))
+	}
+	// follower level: the scenarios of the candidate defects, then seeded cases (every 8th one ends
+	// with a leader's answer from the region of the known findings)
+	scenarioLoadingLeaderSwitch(rep)
+	scenarioHWBelowCheckpoint(rep)
+	scenarioHWRegress(rep)
+	scenarioRealLeaderRestart(rep)
+	for tr := 0; tr < env.Pick(60, 700) && unknownViolations(rep) == 0; tr++ {
+		driveFollower(rep, rec, rng, 25+rng.Intn(30), tr%4 == 3, tr%8 == 5)
 	}
 	if err := rec.Close(); err != nil {
 		rep.Infra("trace file: %v", err)
